@@ -10,58 +10,61 @@ Open Scope Z_scope.
 (* equivalence: outside the chunk loop and the SliceSubsetState shortcut the translated function returns what the hand model's
    stat_view_e returns -- the same shape and the same value at every index of that shape *)
 Lemma translated_equals_hand_model :
-  forall (A res : Type) (R : list A -> res) (nan zero : res) (isfin ispos : A -> bool) shape (a : idx -> A)
+  forall (A res : Type) (R : list A -> res) (nan zero : res) (isfin ispos : A -> bool) shape (a : idx -> A) (unb : garr A -> garr A) (st : Z)
          rf fuel (s : selection) (ax : pyaxis) (fin pos : bool) (o : option (list ventry)) ncm,
+    unb_sound A res R isfin ispos unb st ->
     Forall (fun n => 0 <= n) shape ->
     chunk_cond shape s ax (pv o) ncm = false ->
     shortcut s ax (pv o) = false ->
     let M := stat_view_e A res R nan shape a (filt_of A isfin ispos fin pos) (mask_of shape s) (entries o)
                          (red_of_axes (zlen (sel_shape (view_sel shape (entries o)))) (axes_of ax)) in
-    exists r, gen_compute_statistic A res R nan zero isfin ispos shape a (S rf) fuel s ax fin pos (pv o) ncm = Ok r /\
+    exists r, gen_compute_statistic A res R nan zero isfin ispos shape a unb (S rf) fuel st s ax fin pos (pv o) ncm = Ok r /\
               fst r = fst M /\ forall o', in_box (fst r) o' -> snd r o' = snd M o'.
 Proof.
-  intros A res R nan zero isfin ispos shape a rf fuel s ax fin pos o ncm Hsh Hch Hsc M. subst M.
+  intros A res R nan zero isfin ispos shape a unb st rf fuel s ax fin pos o ncm Hunb Hsh Hch Hsc M. subst M.
   rewrite gen_compute_statistic_S. destruct s as [|m|sl].
-  - eexists. split; [apply body_none; exact Hch|]. split; reflexivity.
-  - destruct (body_mask A res R nan zero isfin ispos shape a (gen_rec A res R nan zero isfin ispos shape a rf fuel) fuel
+  - eexists. split; [apply body_none; [exact Hunb|exact Hch]|]. split; reflexivity.
+  - destruct (body_mask A res R nan zero isfin ispos shape a unb st (gen_rec A res R nan zero isfin ispos shape a unb rf fuel) fuel
                         (SelMask m) ax fin pos o ncm Hsh eq_refl Hch Hsc) as [r [Hr He]].
     exists r. split; [exact Hr|exact He].
-  - destruct (body_mask A res R nan zero isfin ispos shape a (gen_rec A res R nan zero isfin ispos shape a rf fuel) fuel
+  - destruct (body_mask A res R nan zero isfin ispos shape a unb st (gen_rec A res R nan zero isfin ispos shape a unb rf fuel) fuel
                         (SelSlices sl) ax fin pos o ncm Hsh eq_refl Hch Hsc) as [r [Hr He]].
     exists r. split; [exact Hr|exact He].
 Qed.
 
 Lemma translated_statistic_equals_definition :
   forall (A res : Type) (R : list A -> res) (nan zero : res), R [] = nan ->
-  forall (isfin ispos : A -> bool) shape (a : idx -> A) rf fuel (s : selection) (ax : pyaxis) (fin pos : bool)
+  forall (isfin ispos : A -> bool) shape (a : idx -> A) (unb : garr A -> garr A) (st : Z) rf fuel (s : selection) (ax : pyaxis) (fin pos : bool)
          (o : option (list ventry)) ncm,
+    unb_sound A res R isfin ispos unb st ->
     Forall (fun n => 0 <= n) shape ->
     chunk_cond shape s ax (pv o) ncm = false ->
     shortcut s ax (pv o) = false ->
     let sels := view_sel shape (entries o) in
     let vsh := sel_shape sels in
     let red := red_of_axes (zlen vsh) (axes_of ax) in
-    exists r, gen_compute_statistic A res R nan zero isfin ispos shape a (S rf) fuel s ax fin pos (pv o) ncm = Ok r /\
+    exists r, gen_compute_statistic A res R nan zero isfin ispos shape a unb (S rf) fuel st s ax fin pos (pv o) ncm = Ok r /\
       fst r = out_shape vsh red /\
       forall o', in_box (out_shape vsh red) o' ->
         snd r o' = R (map a (filter (fun c => sel_fun shape s c && filt_of A isfin ispos fin pos (a c))
                                     (map (to_under_e sels) (lane0 vsh red o')))).
 Proof.
-  intros A res R nan zero Hnil isfin ispos shape a rf fuel s ax fin pos o ncm Hsh Hch Hsc.
+  intros A res R nan zero Hnil isfin ispos shape a unb st rf fuel s ax fin pos o ncm Hunb Hsh Hch Hsc.
   rewrite gen_compute_statistic_S. apply gen_step_definition; assumption.
 Qed.
 
 Lemma translated_slice_shortcut :
   forall (A res : Type) (R : list A -> res) (nan zero : res), R [] = nan ->
-  forall (isfin ispos : A -> bool) shape (a : idx -> A) rf fuel (sl : list slice) (fin pos : bool) ncm,
+  forall (isfin ispos : A -> bool) shape (a : idx -> A) (unb : garr A -> garr A) (st : Z) rf fuel (sl : list slice) (fin pos : bool) ncm,
+    unb_sound A res R isfin ispos unb st ->
     Forall (fun n => 0 <= n) shape -> Forall Lemmas5.pos_step sl ->
-    exists r, gen_compute_statistic A res R nan zero isfin ispos shape a (S rf) fuel (SelSlices sl) AxNone fin pos PVNone ncm = Ok r /\
+    exists r, gen_compute_statistic A res R nan zero isfin ispos shape a unb (S rf) fuel st (SelSlices sl) AxNone fin pos PVNone ncm = Ok r /\
       fst r = [] /\
       snd r [] = R (map a (filter (fun c => slices_mask shape sl c && filt_of A isfin ispos fin pos (a c))
                                   (lanep (view_pos shape []) (red_of_axes (zlen shape) None) []))).
 Proof.
-  intros A res R nan zero Hnil isfin ispos shape a rf fuel sl fin pos ncm Hsh Hsl.
-  rewrite gen_compute_statistic_S, body_shortcut. eexists. split; [reflexivity|].
+  intros A res R nan zero Hnil isfin ispos shape a unb st rf fuel sl fin pos ncm Hunb Hsh Hsl.
+  rewrite gen_compute_statistic_S, body_shortcut by exact Hunb. eexists. split; [reflexivity|].
   apply (slice_shortcut A res R nan Hnil shape a (filt_of A isfin ispos fin pos) sl (red_of_axes (zlen shape) None) Hsh Hsl).
   - apply red_of_axes_length.
   - intros b Hb. unfold red_of_axes in Hb. apply in_map_iff in Hb. destruct Hb as [x [Hx _]]. auto.
@@ -69,7 +72,8 @@ Qed.
 
 Lemma translated_chunking_irrelevant :
   forall (A res : Type) (R : list A -> res) (nan zero : res), R [] = nan ->
-  forall (isfin ispos : A -> bool) shape (a : idx -> A) (ai : nat) (L : list Z) (s : selection) (fin pos : bool) rf fuel ncm,
+  forall (isfin ispos : A -> bool) shape (a : idx -> A) (unb : garr A -> garr A) (st : Z) (ai : nat) (L : list Z) (s : selection) (fin pos : bool) rf fuel ncm,
+    unb_sound A res R isfin ispos unb st ->
     Forall (fun n => 0 < n) shape -> (ai < length shape)%nat ->
     (forall i, 0 <= i < zlen shape -> existsb (Z.eqb i) L = negb (i =? Z.of_nat ai)) ->
     g_is_slice_state s = false ->
@@ -77,14 +81,40 @@ Lemma translated_chunking_irrelevant :
     zprod shape > ncm ->
     (C20.Model.fuel_for shape <= fuel)%nat ->
     exists r,
-      gen_compute_statistic A res R nan zero isfin ispos shape a (S (S rf)) fuel s (AxTuple L) fin pos PVNone ncm = Ok r /\
+      gen_compute_statistic A res R nan zero isfin ispos shape a unb (S (S rf)) fuel st s (AxTuple L) fin pos PVNone ncm = Ok r /\
       fst r = [nth ai shape 0] /\
       forall k, 0 <= k < nth ai shape 0 ->
         snd r [k] = R (map a (filter (fun c => sel_fun shape s c && filt_of A isfin ispos fin pos (a c))
                                      (lanep (view_pos shape []) (red_axis (length shape) ai) [k]))).
 Proof.
-  intros A res R nan zero Hnil isfin ispos shape a ai L s fin pos rf fuel ncm Hpos Hai HL Hs HL0 HL1 Hncm Hfuel.
-  exact (gen_chunked_definition A res R nan zero Hnil isfin ispos shape a Hpos ai Hai L HL s Hs fin pos rf fuel ncm HL0 HL1 Hncm Hfuel).
+  intros A res R nan zero Hnil isfin ispos shape a unb st ai L s fin pos rf fuel ncm Hunb Hpos Hai HL Hs HL0 HL1 Hncm Hfuel.
+  exact (gen_chunked_definition A res R nan zero Hnil isfin ispos shape a Hpos ai Hai L HL s Hs fin pos unb st Hunb rf fuel ncm HL0 HL1 Hncm Hfuel).
+Qed.
+
+(* ---- the unbroadcast shortcut ("if axis is None and mask is None and statistic not in ('sum', 'percentile'): data = unbroadcast(data)") ---- *)
+(* for the sum and the percentiles the translated code does not apply the shortcut: nothing has to be assumed about unbroadcast *)
+Lemma unb_sound_sum_percentile :
+  forall (A res : Type) (R : list A -> res) (isfin ispos : A -> bool) (unb : garr A -> garr A) (st : Z),
+    st = 4 \/ st = 5 -> unb_sound A res R isfin ispos unb st.
+Proof. intros A res R isfin ispos unb st [-> | ->] H; discriminate H. Qed.
+
+(* without the guard the shortcut is wrong for the sum: the pixel coordinate of axis 1 of a 3 x 4 dataset (stride 0 along axis 0),
+   unbroadcast to 1 x 4: the kernel returns 6 on the unbroadcast array and 18 on the array itself *)
+Definition ex_pix1 : garr Z := ([3; 4], fun i => nth 1 i 0).
+Definition R_sum (l : list Z) : Z := fold_right Z.add 0 l.
+Lemma unbroadcast_sum_values :
+  snd (g_compute_statistic Z Z R_sum (fun _ => true) (fun _ => true) 4 (bc_unbroadcast [true; false] ex_pix1) None AxNone true false tt) [] = 6 /\
+  snd (g_compute_statistic Z Z R_sum (fun _ => true) (fun _ => true) 4 ex_pix1 None AxNone true false tt) [] = 18.
+Proof. split; vm_compute; reflexivity. Qed.
+
+(* ... so the hypothesis unb_sound is false for R = sum and this unbroadcast under any statistic code that passes the guard *)
+Lemma unbroadcast_shortcut_sum_refuted :
+  ~ unb_sound Z Z R_sum (fun _ => true) (fun _ => true) (bc_unbroadcast [true; false]) 0.
+Proof.
+  intros H. specialize (H eq_refl ex_pix1 true false).
+  assert (E : snd (g_compute_statistic Z Z R_sum (fun _ => true) (fun _ => true) 0 (bc_unbroadcast [true; false] ex_pix1) None AxNone true false tt) [] =
+              snd (g_compute_statistic Z Z R_sum (fun _ => true) (fun _ => true) 0 ex_pix1 None AxNone true false tt) []) by (rewrite H; reflexivity).
+  vm_compute in E. discriminate E.
 Qed.
 
 (* ---- Data.compute_histogram ---- *)
